@@ -121,6 +121,48 @@ def gen_vec(rng, uni: qgen.Universe, ev: str, uses, nvar):
     return src + f".Select(lambda {v}: {b})", ["vec", name.lower(), ct, bank, arrow, preds, sb]
 
 
+def gen_first(rng, uni: qgen.Universe, ev: str, uses, nvar):
+    """A First column: coll[.Where(p)].First().m()  or  coll[.Where(p)].Select(lambda y: body).First()"""
+    name = rng.choice(list(uni.colls))
+    bank = rng.choice(["b1", "b2"])
+    uses.append((name, bank))
+    ct, _ = uni.colls[name]
+    arrow = uni.backend == "atlas"
+    src = f'{ev}.{name}("{bank}")'
+    preds = []
+    if rng.random() < 0.6:
+        nvar[0] += 1
+        v = f"x{nvar[0]}"
+        p, sp = gen_pred(rng, v, rng.choice([0, 1]))
+        src += f".Where(lambda {v}: {p})"
+        preds.append(sp)
+    if rng.random() < 0.5:
+        m = rng.choice(["pt", "eta", "phi", "m"])
+        return src + f".First().{m}()", ["first", name.lower(), ct, bank, arrow, preds, ["meth", m], "@THROW@"]
+    nvar[0] += 1
+    v = f"y{nvar[0]}"
+    b, sb = gen_pa(rng, v, rng.choice([0, 1, 2]), funs=True)
+    return src + f".Select(lambda {v}: {b}).First()", ["first", name.lower(), ct, bank, arrow, preds, sb, "@THROW@"]
+
+
+def fill_throw_lines(sx, qlines: List[str]) -> None:
+    """The message of the exception thrown by First quotes the query text: the model takes the k-th emitted
+    throw statement as the text of the k-th First column (its place in the program is still compared)."""
+    throws = [ln.strip() for ln in qlines if ln.strip().startswith("throw std::runtime_error(")]
+    k = [0]
+
+    def walk(x):
+        if isinstance(x, list):
+            for i, y in enumerate(x):
+                if y == "@THROW@":
+                    x[i] = throws[k[0]] if k[0] < len(throws) else "@MISSING-THROW@"
+                    k[0] += 1
+                else:
+                    walk(y)
+
+    walk(sx)
+
+
 def gen_row(rng: random.Random, uni: qgen.Universe, depth: int):
     """-> (query source, list of (name, column sexp), uses).  Terminal forms: bare, tuple, list, dict."""
     uses: List[Tuple[str, str]] = []
@@ -128,11 +170,15 @@ def gen_row(rng: random.Random, uni: qgen.Universe, depth: int):
     n = rng.choice([1, 1, 2, 3])
     cols = []
     for _ in range(n):
-        if rng.random() < 0.5:
+        k = rng.random()
+        if k < 0.42:
             s, sx = gen_ex(rng, uni, "e", depth, uses, nvar, top=True, cmp_ok=True)
             if s.startswith("(") and s.endswith(")") and sx[0] == "bin":
                 pass
             cols.append((s, ["scalar", sx]))
+        elif k < 0.62:
+            s, sx = gen_first(rng, uni, "e", uses, nvar)
+            cols.append((s, sx))
         else:
             s, sx = gen_vec(rng, uni, "e", uses, nvar)
             cols.append((s, sx))
